@@ -65,25 +65,28 @@ Section TcpProofs.
     sh_closed_a sh = false -> sh_closed_b sh = false ->
     dinv data pc (if (d =? 0)%nat then sh_d0 sh else sh_d1 sh) ->
     exists pc' D', copier_step CopyBuf d pc sh =
-                     (pc', set_d d sh D' (sh_wg sh - (nz pc - nz pc')) 0) /\ dinv data pc' D'.
+                     (pc', set_d d sh D' (sh_wg sh - (nz pc - nz pc')) 0) /\ dinv data pc' D' /\ nz pc' <= nz pc.
   Proof.
     intros Hca Hcb Hd. unfold copier_step. rewrite Hca, Hcb.
     replace (if (d =? 0)%nat then false else false) with false by (destruct (d =? 0)%nat; reflexivity).
     destruct pc as [total| | | | | | |]; try (exfalso; exact (proj2 Hd)).
     - destruct (loop_iter_inv data total _ Hd) as (pc' & D' & Hl & Hd' & Hnz). rewrite Hl.
-      exists pc', D'. split; [|exact Hd']. cbn [nz]. rewrite Hnz. f_equal. f_equal. lia.
-    - destruct Hd as (Hwl & Ho & Hcw & Hb). eexists; eexists. split.
-      + cbn [nz]. f_equal. f_equal. lia.
-      + split; [cbn [d_wlimit]; auto|]. cbn [d_out d_cw d_bytes]. repeat split; auto. lia.
+      exists pc', D'. split; [|split; [exact Hd'|cbn [nz]; lia]]. cbn [nz]. rewrite Hnz. f_equal. f_equal. lia.
+    - destruct Hd as (Hwl & Ho & Hcw & Hb).
+      set (D := if (d =? 0)%nat then sh_d0 sh else sh_d1 sh) in *.
+      exists PWg, {| d_rd := d_rd D; d_out := d_out D; d_wlimit := d_wlimit D; d_wshort := d_wshort D;
+                     d_cw := d_cw D + 1; d_bytes := d_bytes D; d_err := d_err D |}. split.
+      + cbn [nz]. replace (sh_wg sh - (1 - 1)) with (sh_wg sh) by lia. reflexivity.
+      + split; [|cbn [nz]; lia]. split; [cbn [d_wlimit]; auto|]. cbn [d_out d_cw d_bytes]. repeat split; auto. lia.
     - destruct Hd as (Hwl & Ho & Hcw & Hb).
       exists PDone, (if (d =? 0)%nat then sh_d0 sh else sh_d1 sh). split.
-      + cbn [nz]. f_equal. f_equal. lia.
-      + split; [cbn [d_wlimit]; auto|]. auto.
+      + cbn [nz]. replace (sh_wg sh - (1 - 0)) with (sh_wg sh - 1) by lia. reflexivity.
+      + split; [|cbn [nz]; lia]. split; [cbn [d_wlimit]; auto|]. auto.
     - destruct Hd as (Hwl & Ho & Hcw & Hb).
       exists PDone, (if (d =? 0)%nat then sh_d0 sh else sh_d1 sh). split.
       + cbn [nz]. replace (sh_wg sh - (0 - 0)) with (sh_wg sh) by lia.
         unfold set_d. destruct sh; destruct (d =? 0)%nat; cbn; f_equal; f_equal; lia.
-      + split; [cbn [d_wlimit]; auto|]. auto.
+      + split; [|cbn [nz]; lia]. split; [cbn [d_wlimit]; auto|]. auto.
   Qed.
 
   Lemma minv_not_wait_done pm sh p0 p1 :
@@ -96,6 +99,31 @@ Section TcpProofs.
     destruct p0, p1; cbn [nz] in Hwg; try lia; auto.
   Qed.
 
+  Lemma Inv_intro sh p0 p1 pm :
+    dinv sA p0 (sh_d0 sh) -> dinv sB p1 (sh_d1 sh) -> sh_wg sh = nz p0 + nz p1 ->
+    sh_io_after_close sh = 0 -> minv pm sh -> Inv (sh, [(0%nat, p0); (1%nat, p1); (2%nat, pm)]).
+  Proof.
+    intros Ha Hb Hc Hd He. exists p0, p1, pm. cbn [fst snd]. split; [reflexivity|].
+    repeat (split; [assumption|]). assumption.
+  Qed.
+
+  (* a copier's step does not disturb what the main thread relies on *)
+  Lemma minv_set_d d sh D wg pm p0 p1 p0' p1' :
+    minv pm sh -> sh_wg sh = nz p0 + nz p1 -> wg = nz p0' + nz p1' -> wg <= sh_wg sh ->
+    minv pm (set_d d sh D wg 0).
+  Proof.
+    intros Hm Hwg Hwg' Hle. unfold set_d.
+    destruct pm; cbn [minv] in *; cbn [sh_closed_a sh_closed_b sh_ncl_a sh_ncl_b sh_ret sh_wg]; try tauto.
+    - destruct Hm as (Hz & ? & ? & ?). repeat split; auto. lia.
+    - destruct Hm as (? & ? & ? & ? & ? & Hx). repeat split; auto. intros Hy; discriminate Hy.
+    - destruct Hm as (? & ? & ? & ? & ? & Hx). repeat split; auto. intros _. specialize (Hx eq_refl). lia.
+    - destruct Hm as (Hz & ? & ? & ?). repeat split; auto. lia.
+    - destruct Hm as (Hz & ? & ? & ?). repeat split; auto. lia.
+  Qed.
+
+  Lemma nz_step_le data pc pc' D D' : dinv data pc D -> dinv data pc' D' -> nz pc - nz pc' <= nz pc.
+  Proof. intros _ _. lia. Qed.
+
   Theorem Inv_step : forall s i, Inv s -> Inv (sys_step tsh (nat * tpc) (tstep CopyBuf) s i).
   Proof.
     intros [sh ls] i (p0 & p1 & pm & Hls & H0 & H1 & Hwg & Hio & Hm). cbn [fst snd] in *. subst ls.
@@ -105,55 +133,119 @@ Section TcpProofs.
       unfold tstep. cbn [fst snd].
       destruct (sh_closed_a sh) eqn:Hca; [|destruct (sh_closed_b sh) eqn:Hcb].
       + destruct (minv_not_wait_done pm sh p0 p1 Hm Hwg (or_introl Hca)) as [-> ->].
-        cbn [copier_step upd_nth]. exists PDone, PDone, pm. repeat split; auto.
+        cbn [copier_step upd_nth]. apply Inv_intro; assumption.
       + destruct (minv_not_wait_done pm sh p0 p1 Hm Hwg (or_intror (or_introl Hcb))) as [-> ->].
-        cbn [copier_step upd_nth]. exists PDone, PDone, pm. repeat split; auto.
-      + destruct (copier_step_inv 0 sA p0 sh Hca Hcb H0) as (pc' & D' & Hs & Hd'). rewrite Hs.
-        cbn [upd_nth]. exists pc', p1, pm. cbn [fst snd]. unfold set_d. cbn [Nat.eqb sh_d0 sh_d1 sh_wg sh_io_after_close].
-        repeat split; auto.
-        * destruct p0, pc'; cbn [nz] in *; try lia; destruct H0 as [_ H0]; destruct Hd' as [_ Hd']; try tauto;
-            cbn [dinv] in *; lia.
-        * lia.
-        * destruct pm; cbn [minv] in *; cbn [sh_closed_a sh_closed_b sh_ncl_a sh_ncl_b sh_ret sh_wg]; try tauto;
-            try (destruct Hm as (? & ? & ? & ? & ? & Hx); repeat split; auto; intros Hy; specialize (Hx Hy);
-                 destruct p0, p1; cbn [nz] in *; lia);
-            try (destruct Hm as (Hz & ? & ? & ?); repeat split; auto; destruct p0, p1; cbn [nz] in *; lia).
+        cbn [copier_step upd_nth]. apply Inv_intro; assumption.
+      + destruct (copier_step_inv 0 sA p0 sh Hca Hcb H0) as (pc' & D' & Hs & Hd' & Hle). rewrite Hs.
+        cbn [upd_nth].
+        assert (Hnz : nz p0 - nz pc' <= nz p0 /\ nz p0 - (nz p0 - nz pc') = nz pc').
+        { lia. }
+        apply Inv_intro.
+        * unfold set_d. cbn [Nat.eqb sh_d0]. exact Hd'.
+        * unfold set_d. cbn [Nat.eqb sh_d1]. exact H1.
+        * unfold set_d. cbn [sh_wg]. lia.
+        * unfold set_d. cbn [sh_io_after_close]. lia.
+        * apply (minv_set_d 0 sh D' _ pm p0 p1 pc' p1 Hm Hwg); lia.
     - (* B->A copier *)
       unfold tstep. cbn [fst snd].
       destruct (sh_closed_a sh) eqn:Hca; [|destruct (sh_closed_b sh) eqn:Hcb].
       + destruct (minv_not_wait_done pm sh p0 p1 Hm Hwg (or_introl Hca)) as [-> ->].
-        cbn [copier_step upd_nth]. exists PDone, PDone, pm. repeat split; auto.
+        cbn [copier_step upd_nth]. apply Inv_intro; assumption.
       + destruct (minv_not_wait_done pm sh p0 p1 Hm Hwg (or_intror (or_introl Hcb))) as [-> ->].
-        cbn [copier_step upd_nth]. exists PDone, PDone, pm. repeat split; auto.
-      + destruct (copier_step_inv 1 sB p1 sh Hca Hcb H1) as (pc' & D' & Hs & Hd'). rewrite Hs.
-        cbn [upd_nth]. exists p0, pc', pm. cbn [fst snd]. unfold set_d. cbn [Nat.eqb sh_d0 sh_d1 sh_wg sh_io_after_close].
-        repeat split; auto.
-        * destruct p1, pc'; cbn [nz] in *; try lia; destruct H1 as [_ H1]; destruct Hd' as [_ Hd']; try tauto;
-            cbn [dinv] in *; lia.
-        * lia.
-        * destruct pm; cbn [minv] in *; cbn [sh_closed_a sh_closed_b sh_ncl_a sh_ncl_b sh_ret sh_wg]; try tauto;
-            try (destruct Hm as (? & ? & ? & ? & ? & Hx); repeat split; auto; intros Hy; specialize (Hx Hy);
-                 destruct p0, p1; cbn [nz] in *; lia);
-            try (destruct Hm as (Hz & ? & ? & ?); repeat split; auto; destruct p0, p1; cbn [nz] in *; lia).
+        cbn [copier_step upd_nth]. apply Inv_intro; assumption.
+      + destruct (copier_step_inv 1 sB p1 sh Hca Hcb H1) as (pc' & D' & Hs & Hd' & Hle). rewrite Hs.
+        cbn [upd_nth].
+        assert (Hnz : nz p1 - nz pc' <= nz p1 /\ nz p1 - (nz p1 - nz pc') = nz pc').
+        { lia. }
+        apply Inv_intro.
+        * unfold set_d. cbn [Nat.eqb sh_d0]. exact H0.
+        * unfold set_d. cbn [Nat.eqb sh_d1]. exact Hd'.
+        * unfold set_d. cbn [sh_wg]. lia.
+        * unfold set_d. cbn [sh_io_after_close]. lia.
+        * apply (minv_set_d 1 sh D' _ pm p0 p1 p0 pc' Hm Hwg); lia.
     - (* main *)
       unfold tstep. cbn [fst snd]. unfold main_step.
       destruct pm; cbn [minv] in Hm; try tauto.
-      + (* the third thread's pc is PDone: returned *)
-        cbn [upd_nth]. exists p0, p1, PDone. repeat split; auto; cbn [minv]; tauto.
-      + destruct (sh_wg sh =? 0) eqn:Ew; cbn [upd_nth fst snd].
-        * exists p0, p1, MCloseA. repeat split; auto; try tauto. cbn [minv]. intuition lia.
-        * exists p0, p1, MWait. repeat split; auto.
-      + cbn [upd_nth fst snd]. exists p0, p1, MCloseB.
-        cbn [sh_d0 sh_d1 sh_wg sh_io_after_close minv sh_ncl_a sh_ncl_b sh_ret]. destruct Hm as (? & ? & ? & ? & ? & Hx).
-        specialize (Hx eq_refl). repeat split; auto; lia.
-      + cbn [upd_nth fst snd]. exists p0, p1, MRet.
-        cbn [sh_d0 sh_d1 sh_wg sh_io_after_close minv sh_ncl_a sh_ncl_b sh_ret]. destruct Hm as (? & ? & ? & ?).
-        repeat split; auto; lia.
-      + cbn [upd_nth fst snd]. exists p0, p1, PDone.
-        cbn [sh_d0 sh_d1 sh_wg sh_io_after_close minv sh_ncl_a sh_ncl_b sh_ret]. destruct Hm as (? & ? & ? & ?).
-        repeat split; auto.
+      + cbn [upd_nth]. apply Inv_intro; auto.
+      + destruct (sh_wg sh =? 0) eqn:Ew; cbn [upd_nth fst snd]; apply Inv_intro; auto.
+        cbn [minv]. destruct Hm as (? & ? & ? & ? & ? & _). repeat split; auto. intros _. lia.
+      + cbn [upd_nth fst snd]. destruct Hm as (? & ? & ? & ? & ? & Hx). specialize (Hx eq_refl).
+        apply Inv_intro; auto. cbn [minv sh_wg sh_ncl_a sh_ncl_b sh_ret]. repeat split; auto; lia.
+      + cbn [upd_nth fst snd]. destruct Hm as (? & ? & ? & ?).
+        apply Inv_intro; auto. cbn [minv sh_wg sh_ncl_a sh_ncl_b sh_ret]. repeat split; auto; lia.
+      + cbn [upd_nth fst snd]. destruct Hm as (? & ? & ? & ?).
+        apply Inv_intro; auto. cbn [minv sh_wg sh_ncl_a sh_ncl_b sh_ret]. repeat split; auto; lia.
     - (* no such thread *)
-      destruct i; cbn [nth_error]; exists p0, p1, pm; repeat split; auto.
+      destruct i; cbn [nth_error]; apply Inv_intro; assumption.
+  Qed.
+
+  (* ---- consequences, for every schedule ---- *)
+  Definition no_write_fault (D : dirst) : Prop := d_wlimit D = None /\ d_out D = [] /\ d_cw D = 0 /\ d_err D = 0.
+
+  Lemma Inv_init D0 D1 :
+    no_write_fault D0 -> no_write_fault D1 -> rest (t_rd (d_rd D0)) = sA -> rest (t_rd (d_rd D1)) = sB ->
+    Inv (tcp_init D0 D1).
+  Proof.
+    intros (Hw0 & Ho0 & Hc0 & He0) (Hw1 & Ho1 & Hc1 & He1) HA HB. unfold tcp_init. apply Inv_intro; cbn [sh_d0 sh_d1 sh_wg sh_io_after_close nz minv sh_closed_a sh_closed_b sh_ncl_a sh_ncl_b sh_ret].
+    - split; [exact Hw0|]. rewrite Ho0, HA. cbn [app]. repeat split; auto.
+    - split; [exact Hw1|]. rewrite Ho1, HB. cbn [app]. repeat split; auto.
+    - reflexivity.
+    - reflexivity.
+    - repeat split; auto. intros Hx; discriminate Hx.
+  Qed.
+
+  Theorem tcp_all_schedules D0 D1 (sched : list nat) :
+    no_write_fault D0 -> no_write_fault D1 -> rest (t_rd (d_rd D0)) = sA -> rest (t_rd (d_rd D1)) = sB ->
+    Inv (run tsh (nat * tpc) (tstep CopyBuf) (tcp_init D0 D1) sched).
+  Proof.
+    intros H0 H1 HA HB. apply (inv_all_schedules tsh (nat * tpc) (tstep CopyBuf) Inv Inv_step).
+    apply Inv_init; assumption.
+  Qed.
+
+  (* delivered bytes are always a prefix of what the source sent; nothing is closed and no I/O hits a closed
+     endpoint while a direction is still running; half-close happens exactly when a direction has finished *)
+  Lemma Inv_prefix s : Inv s ->
+    (exists x, sA = d_out (sh_d0 (fst s)) ++ x) /\ (exists y, sB = d_out (sh_d1 (fst s)) ++ y) /\
+    sh_io_after_close (fst s) = 0.
+  Proof.
+    intros (p0 & p1 & pm & _ & (_ & H0) & (_ & H1) & _ & Hio & _). repeat split; [| |exact Hio].
+    - destruct p0; try tauto; [destruct H0 as (H0 & _); eexists; exact H0| | |];
+        destruct H0 as (H0 & _); exists []; now rewrite app_nil_r.
+    - destruct p1; try tauto; [destruct H1 as (H1 & _); eexists; exact H1| | |];
+        destruct H1 as (H1 & _); exists []; now rewrite app_nil_r.
+  Qed.
+
+  Lemma Inv_returned s : Inv s -> sh_ret (fst s) = true ->
+    d_out (sh_d0 (fst s)) = sA /\ d_out (sh_d1 (fst s)) = sB /\
+    d_bytes (sh_d0 (fst s)) = lenN sA /\ d_bytes (sh_d1 (fst s)) = lenN sB /\
+    d_cw (sh_d0 (fst s)) = 1 /\ d_cw (sh_d1 (fst s)) = 1 /\
+    sh_ncl_a (fst s) = 1 /\ sh_ncl_b (fst s) = 1 /\ sh_io_after_close (fst s) = 0.
+  Proof.
+    intros (p0 & p1 & pm & _ & H0 & H1 & Hwg & Hio & Hm) Hret.
+    assert (Hpm : pm = PDone).
+    { destruct pm; cbn [minv] in Hm; try tauto; try (destruct Hm as (? & ? & ? & ? & ? & ?); congruence);
+        destruct Hm as (? & ? & ? & ?); congruence. }
+    subst pm. cbn [minv] in Hm. destruct Hm as (Hz & Hna & Hnb & _).
+    assert (p0 = PDone /\ p1 = PDone) as [-> ->] by (destruct p0, p1; cbn [nz] in Hwg; try lia; auto).
+    destruct H0 as (_ & ? & ? & ?). destruct H1 as (_ & ? & ? & ?). repeat split; assumption.
+  Qed.
+
+  (* while the reverse direction is still running after one side finished: that side's peer has been
+     half-closed exactly once and NEITHER endpoint is closed *)
+  Lemma Inv_half_close s p0 p1 pm : Inv s -> snd s = [(0%nat, p0); (1%nat, p1); (2%nat, pm)] ->
+    (p0 <> PDone \/ p1 <> PDone) ->
+    sh_closed_a (fst s) = false /\ sh_closed_b (fst s) = false /\
+    (p0 = PDone -> d_cw (sh_d0 (fst s)) = 1) /\ (p1 = PDone -> d_cw (sh_d1 (fst s)) = 1).
+  Proof.
+    intros (q0 & q1 & qm & Hls & H0 & H1 & Hwg & Hio & Hm) Hs Hrun. rewrite Hls in Hs.
+    inversion Hs; subst q0 q1 qm; clear Hs.
+    assert (Hw : sh_wg (fst s) <> 0) by (destruct p0, p1; cbn [nz] in Hwg; try lia; destruct Hrun; congruence).
+    assert (Hc : sh_closed_a (fst s) = false /\ sh_closed_b (fst s) = false).
+    { destruct pm; cbn [minv] in Hm; try tauto; try (destruct Hm as (? & ? & ? & ? & ? & ?); auto);
+        destruct Hm as (Hz & _); congruence. }
+    destruct Hc as [Hca Hcb]. repeat split; auto.
+    - intros ->. destruct H0 as (_ & _ & ? & _). assumption.
+    - intros ->. destruct H1 as (_ & _ & ? & _). assumption.
   Qed.
 End TcpProofs.
 Close Scope N_scope.
